@@ -3,5 +3,5 @@
 ID=$1; F=$2; E=$3
 cd /repo && sed -i "$E" "$F" && git diff --stat | tail -1
 if git diff --quiet; then echo "MUTATION DID NOT APPLY"; exit 2; fi
-cd /verif && ./vf $ID ${4:-quick} 2>&1 | grep -v "^  obligation" | cut -c1-250 | tail -${5:-4}
-git -C /repo checkout -- .
+cd /verif && VF_EVIDENCE_DIR=/tmp/mut_ev ./vf $ID ${4:-quick} 2>&1 | grep -v "^  obligation" | cut -c1-250 | tail -${5:-4}
+git -C /repo checkout -- .; rm -rf /tmp/mut_ev
